@@ -14,6 +14,8 @@ use std::slice;
 pub struct SampledChance {
     index: WeightedAliasIndex<f64>,
     cached: usize,
+    #[cfg(cfr_verif)]
+    vid: usize,
 }
 
 impl SampledChance {
@@ -22,6 +24,8 @@ impl SampledChance {
         SampledChance {
             index: WeightedAliasIndex::new(probs.to_vec()).unwrap(),
             cached: 0,
+            #[cfg(cfr_verif)]
+            vid: cfr_verif_seam::register_chance(probs),
         }
     }
 
@@ -29,8 +33,17 @@ impl SampledChance {
     ///
     /// This will return the same value on successive calls until reset is called
     pub fn sample(&mut self) -> usize {
+        #[cfg(cfr_verif)]
+        cfr_verif_seam::chance_enter(self.vid, self.cached);
         if self.cached == 0 {
             let res = self.index.sample(&mut thread_rng());
+            #[cfg(cfr_verif)]
+            let res = match cfr_verif_seam::chance_rng(self.vid) {
+                Some(mut rng) => self.index.sample(&mut rng),
+                None => res,
+            };
+            #[cfg(cfr_verif)]
+            let res = cfr_verif_seam::chance_drawn(self.vid, res);
             self.cached = res + 1;
             res
         } else {
@@ -40,6 +53,8 @@ impl SampledChance {
 
     /// Reset the infoset allowing different samples
     pub fn reset(&mut self) {
+        #[cfg(cfr_verif)]
+        cfr_verif_seam::chance_reset(self.vid);
         self.cached = 0;
     }
 }
